@@ -144,8 +144,9 @@ PROPS = {
     ),
     "C02": dict(
         level="proof",
-        modules=["Exmex.Props.C02", "Exmex.Props.C01Parse", "Exmex.Props.C02Deep", "Exmex.Props.C03Parse"],
+        modules=["Exmex.Props.C02", "Exmex.Props.C02Any", "Exmex.Props.C01Parse", "Exmex.Props.C02Deep", "Exmex.Props.C03Parse"],
         theorems=["Exmex.C02.evalCloning_eq_split", "Exmex.C02.compile_sound", "Exmex.C02.compile_twice_sound", "Exmex.C01.parse_eval_eq_denote",
+                  "Exmex.C02.parse_fold_invisible_any", "Exmex.C02.parse_accepts_iff_wo",
                   "Exmex.C02.deep_new_sound", "Exmex.C02.deep_compile_sound", "Exmex.C03.deep_parse_eval_eq_denote"],
         rule="literal-rich random chains (60-90% literals, constants, unary over literals) x random tables: parse, parse_wo_compile, compile() once more, DeepEx::parse, all evaluated on symbolic variables and compared with the documented value modulo re-association of flagged operators; node counts compared with the model (folding must happen where the model folds); non-trivial = at least two binary operators; distinct by request hash",
         kinds=[dict(kind="flat", quick=20000, thorough=1000000, args=["lits"],
